@@ -90,6 +90,20 @@ Theorem C03_to_lists_fields : forall p fields, inv_b p = true -> fields <> [] ->
 Proof. exact to_lists_fields_refines. Qed.
 Print Assumptions C03_to_lists_fields.
 
+(* the list view EXACTLY (to_lists, get_list_series, iter_field_lists read the fields with the validity of the struct):
+   a missing row is a null list, a present row holds its list - from well-formedness alone, so also for a column whose
+   missing rows hide records in their children *)
+Theorem C03_to_lists_exact : forall p, wf_b p = true -> chunks p <> [] -> NoDup (map fst (ctype p)) ->
+  m_to_lists p (map fst (ctype p)) = Ok (map (with_missing (lvalidity (abs p))) (lcols (abs p))).
+Proof. exact to_lists_exact. Qed.
+Print Assumptions C03_to_lists_exact.
+
+Theorem C03_to_lists_fields_exact : forall p fields, wf_b p = true -> chunks p <> [] -> NoDup (map fst (ctype p)) ->
+  fields <> [] -> forallb (has_name (map fst (ctype p))) fields = true ->
+  m_to_lists p fields = Ok (spec_lists_opt_fields (abs p) fields).
+Proof. exact to_lists_fields_exact. Qed.
+Print Assumptions C03_to_lists_fields_exact.
+
 Theorem C03_rows : forall p, inv_b p = true -> m_rows p = rows_of (abs p).
 Proof. exact rows_refines. Qed.
 Print Assumptions C03_rows.
